@@ -220,12 +220,15 @@ func kadId(z *fix.ZooKey) *pcom.PeerKeyId {
 
 func drawKey(t *rapid.T, label string) *fix.ZooKey {
 	k := rapid.SampledFrom(pubKinds).Draw(t, label+".kind")
+	if k == fix.KP224 && rapid.IntRange(0, 3).Draw(t, label+".p224") != 0 {
+		k = fix.KP256 // decompressing a P-224 key costs ~8 ms: keep it, but rare
+	}
 	return fix.Key(k, rapid.IntRange(0, 3).Draw(t, label+".idx"))
 }
 
 // cheap signing keys (verification happens inside the decoder, keep it fast)
 func drawSignKey(t *rapid.T, label string) *fix.ZooKey {
-	kinds := []fix.KeyKind{fix.KP256, fix.KEd25519, fix.KP256, fix.KEd25519, fix.KSM2, fix.KP384, fix.KP224}
+	kinds := []fix.KeyKind{fix.KP256, fix.KEd25519, fix.KP256, fix.KEd25519, fix.KSM2, fix.KP384, fix.KP521, fix.KP256, fix.KEd25519, fix.KP224}
 	var ok []fix.KeyKind
 	for _, k := range kinds {
 		for _, p := range pubKinds {
@@ -340,11 +343,12 @@ type gm struct {
 	descr string
 }
 
+// rapid's SampledFrom favours the front of the list: the structured kinds come first.
 var allCmds = []string{
-	pcom.PING_TYPE, pcom.PONG_TYPE, pcom.VERSION_TYPE, pcom.VERACK_TYPE, pcom.ADDR_TYPE, pcom.GetADDR_TYPE,
-	pcom.GET_HEADERS_TYPE, pcom.HEADERS_TYPE, pcom.INV_TYPE, pcom.GET_DATA_TYPE, pcom.BLOCK_TYPE, pcom.TX_TYPE,
-	pcom.CONSENSUS_TYPE, pcom.NOT_FOUND_TYPE, pcom.GET_BLOCKS_TYPE, pcom.FINDNODE_TYPE, pcom.FINDNODE_RESP_TYPE,
-	pcom.UPDATE_KADID_TYPE, pcom.GET_SUBNET_MEMBERS_TYPE, pcom.SUBNET_MEMBERS_TYPE, pcom.SUBNET_OFFLINE_TYPE,
+	pcom.BLOCK_TYPE, pcom.HEADERS_TYPE, pcom.TX_TYPE, pcom.SUBNET_OFFLINE_TYPE, pcom.ADDR_TYPE, pcom.FINDNODE_RESP_TYPE,
+	pcom.CONSENSUS_TYPE, pcom.GET_SUBNET_MEMBERS_TYPE, pcom.SUBNET_MEMBERS_TYPE, pcom.INV_TYPE, pcom.VERSION_TYPE,
+	pcom.UPDATE_KADID_TYPE, pcom.GET_HEADERS_TYPE, pcom.GET_BLOCKS_TYPE, pcom.GET_DATA_TYPE, pcom.NOT_FOUND_TYPE,
+	pcom.FINDNODE_TYPE, pcom.VERACK_TYPE, pcom.GetADDR_TYPE, pcom.PING_TYPE, pcom.PONG_TYPE,
 }
 
 func genMsg(t *rapid.T) gm {
@@ -421,6 +425,7 @@ func genMsgOf(t *rapid.T, cmd string) gm {
 		g.msg = m
 		g.size = n
 	case pcom.GetADDR_TYPE:
+		_ = rapid.Bool().Draw(t, "nofields") // a Custom generator must draw something
 		g.msg = &types.AddrReq{}
 		g.size = 1
 	case pcom.GET_HEADERS_TYPE:
